@@ -366,7 +366,13 @@ def write_pad_codewords(buff, version, capacity, length):
     # represented as 0000.
     write = buff.extend
     if version in (consts.VERSION_M1, consts.VERSION_M3):
-        write([0] * (capacity - length))
+        # Padding bits to the codeword boundary, then pad codewords, the final
+        # (4 bit) codeword is represented as 0000
+        write([0] * min(-length % 8, capacity - length))
+        pad_codewords = ((1, 1, 1, 0, 1, 1, 0, 0), (0, 0, 0, 1, 0, 0, 0, 1))
+        for i in range((capacity - len(buff)) // 8):
+            write(pad_codewords[i % 2])
+        write([0] * (capacity - len(buff)))
     else:
         pad_codewords = ((1, 1, 1, 0, 1, 1, 0, 0), (0, 0, 0, 1, 0, 0, 0, 1))
         for i in range(capacity // 8 - length // 8):
